@@ -110,7 +110,7 @@ def _pick(x, n: int) -> int:
 
 def _agree(n, inc, incR, flags, rt, rflag, variant, preset) -> bool:
     try:
-        got = _with_alarm(20, analyze, ctx, n, inc, incR, flags, rt, rflag, variant, preset)
+        got = _with_alarm(60, analyze, ctx, n, inc, incR, flags, rt, rflag, variant, preset)
     except NotTerminating:
         ctx.db_conn.rollback()
         return False
@@ -135,7 +135,7 @@ def replay_case(n, inc, incR, flags, rt, rflag, variant="lc", preset=()):
     c = Wtp(quiet=True, quiet_output=True)
     want = reference(n, inc, incR, flags, rt, rflag)
     try:
-        got = _with_alarm(20, analyze, c, n, inc, incR, flags, rt, rflag, variant, preset)
+        got = _with_alarm(60, analyze, c, n, inc, incR, flags, rt, rflag, variant, preset)
     except NotTerminating as e:
         got = {"<" + str(e) + ">"}
     edges = [f"{NAMES[i]} includes {NAMES[j] if inc[i][j] == 1 else VARIANTS[variant](NAMES[j])!r}" for i in range(n) for j in range(n) if inc[i][j]]
